@@ -368,6 +368,10 @@ func (c *checker) run(ls lockset, s *Stmt) (bool, lockset) {
 			if strings.Contains(s.Label, "after publication") {
 				kind = "write-after-publication"
 			}
+			if strings.HasPrefix(s.Label, "buffer (shared across goroutines)") {
+				c.add("buffer-shared-across-goroutines", "well_locked", s.Ref.Text()+":buffer", strings.TrimPrefix(s.Label, "buffer (shared across goroutines): "), s.Pos)
+				return true, ls
+			}
 			c.add(kind, "well_locked", s.Ref.Text()+":"+s.Label, "", s.Pos)
 			return true, ls
 		}
